@@ -189,11 +189,11 @@ def gen_stream_histories(ck, n, steps):
                 else:
                     idb = [rng.randrange(128)] + [rng.randrange(256) for _ in range(mx - 1)]
                 pay = [rng.randrange(256) for _ in range(rng.choice([0, 1, 3, 8, 30]))]
-                data = [rng.randrange(256) for _ in range(rng.choice([1, 1, 2, 3, 9, 40]))]
+                data = [rng.randrange(256) for _ in range(rng.choice([0, 1, 2, 3, 9, 40]))]
                 beh.append({"a": "srequest", "arg": {"id": idb, "payload": pay, "act": rng.choice(["none", "reply", "reply2"]),
                                                     "data": data, "hret": rng.choice([0, 0, 1, 4, -1, -3, -128])}})
             elif op == "slate":
-                beh.append({"a": "slate", "arg": {"data": [rng.randrange(256) for _ in range(rng.choice([1, 2, 5]))]}})
+                beh.append({"a": "slate", "arg": {"data": [rng.randrange(256) for _ in range(rng.choice([0, 2, 5]))]}})
             else:
                 idb = [128 + rng.randrange(128)] + [rng.randrange(256) for _ in range(mx - 1)]
                 pay = [rng.randrange(256) for _ in range(rng.choice([0, 2, 6]))]
